@@ -642,7 +642,7 @@ func checkC15(line string, dist map[string]int) (detail, sig, class string) {
 			} else {
 				le += at
 			}
-			if !strings.HasSuffix(outA[ls:le], want) {
+			if !strings.HasSuffix(outA[ls:le], want) || strings.HasSuffix(strings.TrimSuffix(outA[ls:le], want), "/") {
 				pf("comment %q is not verbatim at the end of its line %q", want, outA[ls:le])
 				continue
 			}
@@ -672,7 +672,10 @@ func checkC15(line string, dist map[string]int) (detail, sig, class string) {
 					got++
 				}
 			}
-			if got != nEmpty {
+			if got > nEmpty {
+				// more text-less comment lines than the source has: not the recorded finding
+				pf("%d lines hold a comment without an id, the source has %d comments without text", got, nEmpty)
+			} else if got != nEmpty {
 				// generic detail (the source only when it is short), so that the instances
 				// collapse into few report entries and cannot crowd out other failures
 				ex := ""
